@@ -313,7 +313,6 @@ Definition resolved_out (c : cfg) (m : msg) : list out :=
 
 (** does the event-stream message [m] resolve the pending request [i]?  [_handle_message_event] looks the id up in the
     pending table; since ecb7629 only for a message without a method. *)
-Definition kind_call (k : kind) : bool := match k with KReq | KNotif => true | _ => false end.
 Definition resolves (c : cfg) (i : id) (m : msg) : bool :=
   same_key i m && negb (c_answers_only c && kind_call (m_kind m)).
 
